@@ -43,7 +43,7 @@ OBLIGATIONS = {"dtype:int": 40, "dtype:uint": 40, "dtype:float": 30, "dtype:64bi
                "catchment-dict": 20, "catchment-dict:inlets": 10,
                "nodata:nondefault": 40, "values:extreme": 20, "layout-variant": 30,
                "resave": 30, "clip:corner-on-edge": 10,
-               "clip:dict-clone": 20}
+               "clip:dict-clone": 20, "bigendian:resave": 10}
 
 DTYPES = [np.int8, np.int16, np.int32, np.int64, np.uint8, np.uint16, np.uint32,
           np.uint64, np.float16, np.float32, np.float64]
@@ -293,6 +293,19 @@ def run_case(ctx, case):
                         gb = lfun()
                         okb = values_equal(np.asarray(gb.data), stored) and \
                             not geometry_equal(gr, gb)
+                        if lname == "from_header":
+                            # ... and what was loaded can be saved and loaded again
+                            ctx.tag("bigendian:resave")
+                            f2 = str(base) + "_be2.bil"
+                            gb.save(f2)
+                            gb2 = g.Grid.from_header(str(base) + "_be2.hdr")
+                            ctx.check("load.bigendian-resave",
+                                      values_equal(np.asarray(gb2.data), stored) and
+                                      not geometry_equal(gr, gb2),
+                                      f"save-load|grid-loaded-from-big-endian-raster|{tagk}",
+                                      case, lambda: {"expected": stored.ravel()[:4].tolist(),
+                                                     "loaded": np.asarray(gb2.data)
+                                                     .ravel()[:4].tolist()})
                         ctx.check("load.bigendian", okb,
                                   f"load|big-endian|{lname}|values|{tagk}", case,
                                   lambda: {"expected": stored.ravel()[:4].tolist(),
